@@ -294,6 +294,17 @@ def run_case(case):
                             cell = cell.strip()
                         gv_ = got.results[0][i_].get(onames[col_]) if i_ < len(got.results[0]) else None
                         ok_alt = (cell == gv_) or (cell in ('', None) and gv_ in ('', None)) or str(cell) == str(gv_)
+                        if not ok_alt and fam == 'cast_schema' and len(got.results[0]) != n_alt and i_ < len(got.results[0]):
+                            # rows were dropped by the error policy, so positions no longer line up: the observed row
+                            # must then be reproduced WHOLE (every header column) by some row of the alternative table
+                            grow_ = got.results[0][i_]
+
+                            def same_(c_, g_):
+                                c_ = c_.strip() if strip else c_
+                                return (c_ in ('', None) and g_ in ('', None)) or str(c_) == str(g_)
+                            ok_alt = any(len(r_) > col_ and len(r_) >= len(onames) and
+                                         all(same_(r_[j_], grow_.get(onames[j_])) for j_ in range(len(onames)))
+                                         for r_ in ar)
                     if ok_alt:
                         mech = 'sniffed_dialect_misparse'
                 elif differs and not got.ok and kind == 'unexpected_error':
